@@ -51,6 +51,11 @@ structure Disk where
   addrs : Scope → Addr → Option Acct
   /-- addresses that received a credit (and were marked used), oldest first -/
   funded : List (Scope × Addr)
+  /-- id of the PRIVATE passphrase the stored master-key parameters / crypto keys were made from (`putMasterKeyParams`,
+  `putCryptoKeys`): the one a wallet opened on this database unlocks with (id 0 = the passphrase of `wallet.Create`) -/
+  priv : Nat := 0
+  /-- id of the PUBLIC passphrase of the stored public master-key parameters: the one `wallet.Open` needs -/
+  pub : Nat := 0
 
 structure Mem where
   accts : Scope → Acct → Option Row
@@ -61,6 +66,12 @@ structure Mem where
   manager is locked, or the account is watch-only (imported xpub).  Nothing ever removes an entry except a
   successful Unlock - in particular not a rollback and not `InvalidateAccountCache`. -/
   pendU : List (Scope × Acct)
+  /-- `m.masterKeyPriv` / `m.cryptoKeyPrivEncrypted` / `m.privPassphraseSalt` / `m.hashedPrivPassphrase` of the running
+  manager: `none` = as loaded from the database at `Open`; `some p` = replaced by a `ChangePassphrase(private)` whose
+  database writes succeeded (the manager replaces them EAGERLY, inside the still open transaction). -/
+  privOv : Option Nat := none
+  /-- the same for `m.masterKeyPub` (public passphrase) -/
+  pubOv : Option Nat := none
 
 structure State where
   disk : Disk
@@ -123,6 +134,7 @@ def lookupName (d : Disk) (sc : Scope) (nm : Name) : Option Acct :=
 inductive Err
   | acctNotFound | dupName | badName | tooMany | locked | insufficient | notifyFail | badKey | dbError | noCoin
   | commitFail
+  | wrongPass
 deriving DecidableEq, Repr
 
 /-- deferred `OnCommit` closure of `nextAddresses` -/
@@ -206,6 +218,14 @@ inductive Op
   | lock
   | unlock
   | cmp (scopes : List Scope) (us : List (Scope × Addr))
+  /-- `Wallet.Unlock(passphrase p)` -/
+  | unlockPass (p : Nat)
+  /-- `Wallet.ChangePrivatePassphrase` (`priv = true`) / `Wallet.ChangePublicPassphrase` -/
+  | chPass (priv : Bool) (old new : Nat)
+  /-- `Wallet.ChangePassphrases(publicOld, publicNew, privateOld, privateNew)` -/
+  | chBoth (pubOld pubNew privOld privNew : Nat)
+  /-- the process restarts: the running wallet is stopped and opened again on its database (`reopen`) -/
+  | restart
 
 /-- a transaction whose only write is ONE `nextAddresses(.., 1, ..)`: rolled back when that fails or when the
 request is a dry run / fails afterwards (`abort`), committed otherwise -/
@@ -380,6 +400,68 @@ def stepUnlock (s : State) : State × Res :=
     ({ s with mem := { m1 with locked := false, pendU := [] } }, .ok)
   else (s, .err .acctNotFound)
 
+/-- the private / public passphrase the RUNNING manager checks against (its in-memory master-key parameters), given
+the (transaction's view of the) database it was opened on -/
+def memPrivOf (d : Disk) (m : Mem) : Nat := m.privOv.getD d.priv
+def memPubOf (d : Disk) (m : Mem) : Nat := m.pubOv.getD d.pub
+def memPriv (s : State) : Nat := memPrivOf s.disk s.mem
+def memPub (s : State) : Nat := memPubOf s.disk s.mem
+
+/-- wallet.Unlock(passphrase `p`) → `Manager.Unlock`: the passphrase is checked against the manager's IN-MEMORY
+master private key parameters (locked: `masterKeyPriv.DeriveKey`; unlocked: salted hash against
+`hashedPrivPassphrase`); a wrong one locks the manager (`m.lock()`) and returns ErrWrongPassphrase; the right one
+continues as `stepUnlock`. -/
+def stepUnlockPass (s : State) (p : Nat) : State × Res :=
+  if p = memPriv s then stepUnlock s
+  else ({ s with mem := { s.mem with locked := true } }, .err .wrongPass)
+
+/-- `Manager.ChangePassphrase(ns, old, new, private)` inside the open transaction `t`: the old passphrase is checked
+against the in-memory master key parameters; the new parameters and re-encrypted crypto keys are written to the
+database; "now that the db has been successfully updated" the in-memory ones are replaced AT ONCE. -/
+def chStep (t : Tx) (priv : Bool) (old new : Nat) : Tx × Option Err :=
+  if priv then
+    if old = memPrivOf t.d t.m then
+      ({ t with d := { t.d with priv := new }, m := { t.m with privOv := some new } }, none)
+    else (t, some .wrongPass)
+  else
+    if old = memPubOf t.d t.m then
+      ({ t with d := { t.d with pub := new }, m := { t.m with pubOv := some new } }, none)
+    else (t, some .wrongPass)
+
+/-- `walletLocker`, `case req := <-w.changePassphrase`: one `walletdb.Update` around one `ChangePassphrase` -/
+def stepChPass (s : State) (priv : Bool) (old new : Nat) : State × Res :=
+  let r := chStep (begin s) priv old new
+  match r.2 with
+  | some e => (rollback s r.1, .err e)
+  | none => (commit r.1, .ok)
+
+/-- `walletLocker`, `case req := <-w.changePassphrases`: ONE `walletdb.Update` around the PUBLIC change followed by
+the PRIVATE change (`privFirst = false`, the order of the code); when the second step fails the transaction is rolled
+back but the first step's in-memory replacement stays.  `privFirst = true` is the other order (used only by the
+counter-example `C05_wallet_counterexample_private_first`). -/
+def stepChBothWith (privFirst : Bool) (s : State) (pubOld pubNew privOld privNew : Nat) : State × Res :=
+  let a := if privFirst then chStep (begin s) true privOld privNew else chStep (begin s) false pubOld pubNew
+  match a.2 with
+  | some e => (rollback s a.1, .err e)
+  | none =>
+    let b := if privFirst then chStep a.1 false pubOld pubNew else chStep a.1 true privOld privNew
+    match b.2 with
+    | some e => (rollback s b.1, .err e)
+    | none => (commit b.1, .ok)
+
+def stepChBoth (s : State) (pubOld pubNew privOld privNew : Nat) : State × Res :=
+  stepChBothWith false s pubOld pubNew privOld privNew
+
+/-- `ChangePassphrases` with `repo-patches/fix-C05-changepassphrases-public-half-rollback.diff`: when the private
+half fails after the public half succeeded, the handler switches the in-memory public master key back
+(`ChangePassphrase(publicNew → publicOld)` inside the transaction that is rolled back).  Used by the driver when the
+harness's probe reports the fix (`reset pf=1`); `step` follows the unfixed code. -/
+def stepChBothFixed (s : State) (pubOld pubNew privOld privNew : Nat) : State × Res :=
+  let r := stepChBoth s pubOld pubNew privOld privNew
+  match r.2 with
+  | .err _ => if pubOld = memPub s then ({ r.1 with mem := { r.1.mem with pubOv := some pubOld } }, r.2) else r
+  | _ => r
+
 def step (s : State) : Op → State × Res
   | .newAddr sc a internal cf => stepNewAddr s sc a internal cf
   | .curAddr sc a => stepCurAddr s sc a
@@ -392,6 +474,10 @@ def step (s : State) : Op → State × Res
   | .lock => ({ s with mem := { s.mem with locked := true } }, .ok)
   | .unlock => stepUnlock s
   | .cmp scopes us => (stepCmp s scopes us, .ok)
+  | .unlockPass p => stepUnlockPass s p
+  | .chPass priv old new => stepChPass s priv old new
+  | .chBoth pubOld pubNew privOld privNew => stepChBoth s pubOld pubNew privOld privNew
+  | .restart => (reopen s, .ok)
 
 def run (s : State) (ops : List Op) : State := ops.foldl (fun s op => (step s op).1) s
 
